@@ -407,3 +407,240 @@ def AggCases(tier, rng):
   for c in cases:
     c['text'] = ir.RenderProgram(c['prog'])
   return cases
+
+
+# ---- composite values re-embedded (nested lists / records) ----------------------
+# A built-in that returns or passes through a composite value must hand over
+# the VALUE, not its JSON text: the result is put inside a list literal, a
+# record literal and a List= aggregate and compared as a structured value.
+def TV(x):
+  """Python value -> tagged value (dict = record, list = list, None = null)."""
+  if x is None:
+    return NULL
+  if isinstance(x, dict):
+    return ['r', [[k, TV(v)] for k, v in sorted(x.items())]]
+  if isinstance(x, list):
+    return ['l', [TV(v) for v in x]]
+  return N(x) if isinstance(x, int) else S(x)
+
+
+NESTED_LISTS = [[[1, 2], [3]], [[], [0]], [['a'], ['ab', 'b']],
+                [{'a': 1}, {'a': 2}], [{'a': [1]}, {'a': [2, 3]}]]
+NESTED_RECS = [{'f': [1, 2], 'h': 0}, {'f': [], 'h': 1}, {'f': {'k': [1]}, 'h': 2},
+               {'f': [[1], [2, 3]], 'h': 3}]
+
+
+def Embeddings(x):
+  return [('in_list', ListE([x])), ('in_record', ir.RecE([('a', x)])),
+          ('in_record_in_list', ListE([ir.RecE([('a', x)]), ir.RecE([('a', x)])]))]
+
+
+def NestedCalls():
+  """(name, expression, body) whose value is composite and structured on the
+  engine's own JSON functions."""
+  out = []
+  for nv in NESTED_LISTS:
+    for i in range(len(nv)):
+      out.append(('Element', Op('Element', Lit(TV(nv)), V(i)), []))
+      idx = Op('Element', Var('ll'), V(i))
+      idx['form'] = 'index'
+      out.append(('l[i]', idx, [Unify(Var('ll'), Lit(TV(nv)))]))
+  for rv in NESTED_RECS:
+    out.append(('r.f', ir.Sub(Var('r'), 'f'), [Unify(Var('r'), Lit(TV(rv)))]))
+  for n in (0, 2):
+    out.append(('Range', Op('Range', V(n)), []))
+  return out
+
+
+# UDF results (Python functions returning JSON text) lose their structure when
+# re-embedded on the unchanged tree: known findings F-C20-udf-result-reembedded
+# and F-C20-list-column-aggregated, one reproducer program each.
+def UdfReembedCases():
+  a, v, x = Var('a'), Var('v'), Var('x')
+  e = [Atom('E', [('col0', x)])]
+  g = [Atom('G', [('col0', a), ('col1', v)])]
+  E = Facts('E', [[N(1)], [N(2)], [N(1)]], 1)
+  G = Facts('G', [[S('a'), N(1)], [S('b'), N(0)]], 2)
+  EL = Facts('E', [[TV([1])], [TV([2, 3])]], 1)
+  items = [
+      ('ArrayConcat', [], ListE([Op('ArrayConcat', V([1]), V([2]))])),
+      ('ArrayConcat', [], ir.RecE([('a', Op('ArrayConcat', Lit(TV([[1]])),
+                                            Lit(TV([[2]]))))])),
+      ('Sort', [], ListE([Op('Sort', V([2, 1]))])),
+      ('Sort', [], ir.RecE([('a', Op('Sort', V(['b', 'a'])))])),
+      ('Split', [], ListE([Op('Split', V('a,b'), V(','))])),
+      ('Set', [E], ir.RecE([('a', AggE('Set', x, e))])),
+      ('Array', [G], ListE([AggE('Array', Op('->', v, a), g)])),
+      ('ArgMinK', [G], ListE([AggE('ArgMinK2', Op('->', a, v), g)])),
+      ('ArgMaxK', [G], ir.RecE([('a', AggE('ArgMaxK2', Op('->', a, v), g))])),
+      ('List(column)', [EL], AggE('List', x, e)),
+      ('Set(column)', [EL], AggE('Set', x, e)),
+  ]
+  cases = []
+  for k, (via, preds, expr) in enumerate(items):
+    prog = Prog(preds + [Pred('T', [Rule([('col0', expr, '')])])],
+                ann=K_WRAPPERS if via.startswith('Arg') else ())
+    cases.append({'id': 'nu%d_%s' % (k, Slug(via)), 'prog': prog, 'query': ['T'],
+                  'meta': {'features': ['nested_reembed_udf'], 'calls': {},
+                           'kind': 'nested',
+                           'sig': {'c20': 'reembed_udf', 'via': via}}})
+  return cases
+
+
+def NestedCases(batch=20):
+  cases = []
+  rules = []
+  for name, x, body in NestedCalls():
+    for ename, emb in Embeddings(x):
+      rules.append((name, ename, emb, body))
+  # a few genuine one-rule programs
+  for j in (0, 1, 2, len(rules) // 2, len(rules) - 1):
+    name, ename, emb, body = rules[j]
+    cases.append({'id': 'ne1_%d' % j,
+                  'prog': Prog([Pred('T', [Rule([('col0', emb, '')], body)])]),
+                  'query': ['T'],
+                  'meta': {'features': ['nested_reembed', 'nested:' + ename,
+                                        'nested_via:' + name], 'calls': {},
+                           'kind': 'nested'}})
+  for s in range(0, len(rules), batch):
+    part = rules[s:s + batch]
+    prs = [Rule([('col0', Lit(N(i)), ''), ('col1', emb, '')], body)
+           for i, (_, _, emb, body) in enumerate(part)]
+    feats = sorted(set(['nested_reembed'] + ['nested:' + r[1] for r in part] +
+                       ['nested_via:' + r[0] for r in part]))
+    cases.append({'id': 'neN_%d' % s, 'prog': Prog([Pred('T', prs)]),
+                  'query': ['T'],
+                  'meta': {'features': feats, 'calls': {}, 'kind': 'nested'}})
+  # List= / List{} over extracted composite elements
+  i, ll, r = Var('i'), Var('ll'), Var('r')
+  for k, nv in enumerate(NESTED_LISTS):
+    L = Facts('L', [[N(j), TV(nv)] for j in range(len(nv))], 2)
+    src = [Atom('L', [('col0', i), ('col1', ll)])]
+    for form in ('index', 'call'):
+      el = Op('Element', ll, i)
+      if form == 'index':
+        el['form'] = 'index'
+      cases.append({'id': 'nl%d_%s' % (k, form), 'prog': Prog([
+          L, Pred('PL', [Rule([('r', el, 'List')], src, distinct=True)])]),
+                    'query': ['PL'],
+                    'meta': {'features': ['nested_reembed', 'nested:in_List_agg'],
+                             'calls': {}, 'kind': 'nested'}})
+      if form == 'index' and k in (0, 3):
+        # known finding: through the sub-select of an aggregating expression
+        # the extracted element arrives as text
+        cases.append({'id': 'nx%d' % k, 'prog': Prog([
+            L, Pred('XL', [Rule([('r', AggE('List', el, src), '')])])]),
+                      'query': ['XL'],
+                      'meta': {'features': ['nested_reembed_udf'], 'calls': {},
+                               'kind': 'nested',
+                               'sig': {'c20': 'reembed_udf',
+                                       'via': 'List(expression)'}}})
+  R = Facts('L', [[N(j), TV(rv)] for j, rv in enumerate(NESTED_RECS)], 2)
+  src = [Atom('L', [('col0', i), ('col1', r)])]
+  cases.append({'id': 'nl_rec', 'prog': Prog([
+      R, Pred('PL', [Rule([('r', ir.Sub(r, 'f'), 'List')], src, distinct=True)])]),
+                'query': ['PL'],
+                'meta': {'features': ['nested_reembed', 'nested:in_List_agg',
+                                      'nested_via:r.f'], 'calls': {},
+                         'kind': 'nested'}})
+  cases += UdfReembedCases()
+  for c in cases:
+    c['text'] = ir.RenderProgram(c['prog'])
+  return cases
+
+
+# ---- boolean-valued built-ins with nulls -------------------------------------------
+# `x in l` as an EXPRESSION is two-valued (IN_LIST UDF = Python's `in`): a null
+# element is an element, the item may be null; only a null list gives null.
+# Comparisons with a null operand are unknown (null); && || ! are three-valued.
+NULL_LISTS = [[None, 2], [1, None], [None], [], [None, None, 2], [2, 1]]
+NULL_SLISTS = [['a', None], [None, 'b'], [None]]
+
+
+def InNullCases(batch=20):
+  def In(x, l):
+    return Op('InList', Lit(TV(x)), Lit(TV(l)))
+  rules = []     # (feature, head expr or None, body)
+  for l in NULL_LISTS:
+    for x in (1, 2, None):
+      rules.append(('in_null:value', In(x, l), []))
+      rules.append(('in_null:not', Op('!', In(x, l)), []))
+      # a positive `x in l` conjunct is the inclusion proposition (x equals
+      # some element; null equals nothing), not the IN_LIST expression
+      rules.append(('in_null:constraint', None,
+                    [Inc(Lit(TV(x)), Lit(TV(l)))]))
+      rules.append(('in_null:not_constraint', None, [Cmp(Op('!', In(x, l)))]))
+    rules.append(('in_null:and', Op('&&', In(1, l), In(2, l)), []))
+    rules.append(('in_null:or', Op('||', In(1, l), In(2, l)), []))
+    rules.append(('in_null:or', Op('||', In(1, l), In(3, l)), []))
+    rules.append(('in_null:and', Op('&&', Op('!', In(1, l)), Op('!', In(3, l))), []))
+  for l in NULL_SLISTS:
+    for x in ('a', 'b', None):
+      rules.append(('in_null:value', In(x, l), []))
+      rules.append(('in_null:not', Op('!', In(x, l)), []))
+  cases = []
+  for j in (0, 1, 2, 3, 12, 13):      # genuine one-rule programs
+    feat, e, body = rules[j]
+    head = [('col0', e if e is not None else Lit(N(0)), '')]
+    cases.append({'id': 'in1_%d' % j,
+                  'prog': Prog([Pred('T', [Rule(head, body)])]), 'query': ['T'],
+                  'meta': {'features': ['in_null_expr', feat], 'calls': {'in': 1},
+                           'kind': 'in_null'}})
+  for s in range(0, len(rules), batch):
+    part = rules[s:s + batch]
+    prs = [Rule([('col0', Lit(N(k)), ''),
+                 ('col1', e if e is not None else Lit(N(1)), '')], body)
+           for k, (_, e, body) in enumerate(part)]
+    cases.append({'id': 'inN_%d' % s, 'prog': Prog([Pred('T', prs)]),
+                  'query': ['T'],
+                  'meta': {'features': sorted(set(['in_null_expr'] +
+                                                  [r[0] for r in part])),
+                           'calls': {'in': len(part)}, 'kind': 'in_null'}})
+  # lists coming from facts: Miss(i) :- L(i, l), !(1 in l)
+  i, l = Var('i'), Var('l')
+  L = Facts('L', [[N(j), TV(v)] for j, v in enumerate(NULL_LISTS)], 2)
+  src = [Atom('L', [('col0', i), ('col1', l)])]
+  has = Op('InList', Lit(N(1)), l)
+  cases.append({'id': 'in_facts', 'prog': Prog([
+      L, Pred('Miss', [Rule([('col0', i, '')], src + [Cmp(Op('!', has))])]),
+      Pred('Has', [Rule([('col0', i, '')], src + [Inc(Lit(N(1)), l)])]),
+      Pred('Val', [Rule([('col0', i, ''), ('v', has, ''),
+                         ('n', Op('InList', Lit(NULL), l), '')], src)])]),
+                'query': ['Miss', 'Has', 'Val'],
+                'meta': {'features': ['in_null_expr', 'in_null:facts'],
+                         'calls': {'in': 4 * len(NULL_LISTS)}, 'kind': 'in_null'}})
+  # comparisons / connectives with null operands, nulls inside list operands
+  rules = []
+  for op in ('==', '!=', '<', '<=', '>', '>='):
+    for a, b in ((None, 1), (1, None), (None, None), ('a', None)):
+      rules.append((op, Op(op, Lit(TV(a)), Lit(TV(b)))))
+      rules.append((op, Op('!', Op(op, Lit(TV(a)), Lit(TV(b))))))
+  unk = Op('==', Lit(NULL), Lit(N(1)))
+  tru = Op('==', Lit(N(1)), Lit(N(1)))
+  fal = Op('==', Lit(N(1)), Lit(N(2)))
+  for op in ('&&', '||'):
+    for a in (unk, tru, fal):
+      for b in (unk, tru, fal):
+        rules.append((op, Op(op, a, b)))
+  for x in (None, 1, 'a'):
+    rules.append(('isnull', Op('isnull', Lit(TV(x)))))
+    rules.append(('isnull', Op('!', Op('isnull', Lit(TV(x))))))
+  for lst in ([None, 1], [None], [1, None, 2]):
+    rules.append(('Size', Op('Size', Lit(TV(lst)))))
+    for k in range(len(lst)):
+      rules.append(('Element', Op('Element', Lit(TV(lst)), V(k))))
+  for s in range(0, len(rules), batch):
+    part = rules[s:s + batch]
+    prs = [Rule([('col0', Lit(N(k)), ''), ('col1', e, '')])
+           for k, (_, e) in enumerate(part)]
+    calls = {}
+    for name, _ in part:
+      if name in BUILTINS_REQUIRED:
+        calls[name] = calls.get(name, 0) + 1
+    cases.append({'id': 'bnN_%d' % s, 'prog': Prog([Pred('T', prs)]),
+                  'query': ['T'],
+                  'meta': {'features': ['bool_null_operand'], 'calls': calls,
+                           'kind': 'bool_null'}})
+  for c in cases:
+    c['text'] = ir.RenderProgram(c['prog'])
+  return cases
